@@ -373,7 +373,11 @@ pub fn h_first(base: &Run, run: &Run, out: &mut Vec<Violation>) {
 /// the text has one of the shapes the library's own impls use (any other text claims nothing
 /// that can be checked): the quoted string and its announced number of characters, the quoted
 /// out-of-range number, the quoted unparsable key.
-pub fn unexpected_claims(msg: &str, here: &Doc) -> Option<String> {
+/// `taken_out(key)`: the object at this place is read by a tagged enum whose tag key is `key` - the
+/// tag is removed from the object before the variant's fields are read ("its fields are then read
+/// from the remaining entries", C10), so a variant field with that very key is missing although
+/// the payload, as the source holds it, has a member of that name.
+pub fn unexpected_claims(msg: &str, here: &Doc, taken_out: &dyn Fn(&str) -> bool) -> Option<String> {
     fn between<'a>(s: &'a str, open: &str, close: &str) -> Option<&'a str> {
         let a = s.find(open)? + open.len();
         let b = s[a..].rfind(close)? + a;
@@ -408,6 +412,7 @@ pub fn unexpected_claims(msg: &str, here: &Doc) -> Option<String> {
         if let Some((_, key)) = rest.split_once(':') {
             return match here {
                 Doc::Map(m) if m.iter().all(|(k, _)| k != key) => None,
+                Doc::Map(_) if taken_out(key) => None,
                 Doc::Map(_) => Some(format!("the missing_field_error function was told `{key}` is missing; the object there has it")),
                 _ => Some("the position does not hold an object".to_string()),
             };
@@ -509,7 +514,8 @@ pub fn h_loc(run: &Run, doc: &Doc, out: &mut Vec<Violation>) {
                             }
                             _ => Some(format!("the value at that position is {}", here.render())),
                         },
-                        KindSnap::Unexpected { msg } => unexpected_claims(msg, here),
+                        // (H-loc runs on programs without a field keyed like its enum's tag: nothing is taken out)
+                        KindSnap::Unexpected { msg } => unexpected_claims(msg, here, &|_| false),
                     }
                 };
                 let verdicts: Vec<Option<String>> = all.iter().map(|d| judge(d)).collect();
@@ -788,6 +794,35 @@ pub fn m_reports(
             ),
         ));
     }
+}
+
+/// The report the built-in error types print is the first one made to the container's error type
+/// in the keep-going run. It has to be one of the reports the reference interpreter expects for
+/// this payload, content included (a `BadSequenceLen` whose `expected` is not the arity of the
+/// target renders as a well-formed message about the wrong length, which comparing the message
+/// with the report it renders cannot see). Weaker than `m_reports`: one report, membership only.
+/// A run whose first hand-over to error type 0 is a field's own error is left to `m_handover`.
+pub fn m_first(rule: &'static str, exp: &Expect, run: &Run, out: &mut Vec<Violation>) -> bool {
+    for e in &run.events {
+        let act = match e {
+            Event::Report { rid, kind, loc, ty: 0, .. } => ActReport { rid: *rid, class: ActClass::Kind(kind.clone()), loc: loc.clone(), ty: 0 },
+            Event::Foreign { rid, token, loc, ty: 0, .. } => ActReport { rid: *rid, class: ActClass::Foreign(token.clone()), loc: loc.clone(), ty: 0 },
+            Event::Merge { ty: 0, other_ty: 1, .. } => return false,
+            _ => continue,
+        };
+        if !exp.reports.iter().any(|x| matches(x, &act, Strict::Full)) {
+            out.push(v(
+                rule,
+                format!(
+                    "the first report of the keep-going run, which is what the built-in error types print, is {} but the reference interpreter expects no such report for this payload; it expects: [{}]",
+                    act.render(),
+                    exp.reports.iter().map(render_exp).collect::<Vec<_>>().join("; ")
+                ),
+            ));
+        }
+        return true;
+    }
+    false
 }
 
 pub fn m_value(rule: &'static str, exp: &Expect, run: &Run, out: &mut Vec<Violation>) {
